@@ -562,6 +562,12 @@ func Scenario(seed int64, k int, res *l2.Result) {
 			keyKind = "base-key"
 			if !bytes.Equal(ser(got, true), ser(n.Block, true)) {
 				bad = "differs from the true block (non-witness serialisation) — " + diffWhat(got, n.Block)
+			} else if !bytes.Equal(ser(got, false), ser(n.Block, false)) {
+				// The statement demands a valid witness commitment of every
+				// block handed out: a block of a chain block that carries
+				// witness data, cached with stripped or altered witness data,
+				// has none.
+				bad = "has the right transactions but not the true witness data, so its witness commitment is invalid — " + diffWhat(got, n.Block)
 			}
 		default:
 			bad = fmt.Sprintf("is stored under an unexpected inv type %v", iv.Type)
@@ -843,6 +849,11 @@ func Scenario(seed int64, k int, res *l2.Result) {
 			case c.Plan.Base && !bytes.Equal(ser(got, true), ser(truth.Block, true)):
 				res.Violate(evid.Sig("c06/returned-block-differs", "base:"+diffWhat(got, truth.Block), strings.Join(steps, ","), witStr(w, c.Hash)),
 					fmt.Sprintf("GetBlock(%s, BaseEncoding) returned a block whose non-witness serialisation differs from the true block: %s", c.HashStr, diffWhat(got, truth.Block)), wit())
+			case c.Plan.Base && !bytes.Equal(ser(got, false), ser(truth.Block, false)):
+				// Same transactions, different (stripped or forged) witness
+				// data: the returned block's witness commitment is invalid.
+				res.Violate(evid.Sig("c06/returned-block-invalid-witness-commitment", "base-encoding", diffWhat(got, truth.Block)),
+					fmt.Sprintf("GetBlock(%s, BaseEncoding) returned the right transactions with witness data that does not match the block's witness commitment: %s", c.HashStr, diffWhat(got, truth.Block)), wit())
 			case !validSeen:
 				res.Violate(evid.Sig("c06/returned-without-valid-response", strings.Join(steps, ",")),
 					fmt.Sprintf("GetBlock(%s) returned a block although no peer had sent the true block for that hash and encoding before the call ended", c.HashStr), wit())
